@@ -205,6 +205,9 @@ CLASSES = {
     # the trait object lives as long as the reference it sits behind (`&'a dyn Tr` is `&'a (dyn Tr + 'a)`)
     "dyna": ("(dyn ::core::fmt::Debug)", [("&'a dyn ::core::fmt::Debug", 1, False), ("&'a (dyn ::core::fmt::Debug + 'a)", 1, False),
                                             ("&'a &'a dyn ::core::fmt::Debug", 2, False)], "{i}u64 + 500", None, None),
+    # a smart pointer whose own Deref leads elsewhere is a plain field: the target is the pointer, not what it points to
+    "pin": ("::core::pin::Pin<&'static mut u32>", [("::core::pin::Pin<&'a mut u32>", 0, True)],
+            "::core::pin::Pin::new(%s({i}u32 + 300))" % (RT + "leak_mut"), None, None),
     "box": ("::std::boxed::Box<u32>", [("::std::boxed::Box<u32>", 0, True), ("&'a ::std::boxed::Box<u32>", 1, False),
                                       ("&'a mut ::std::boxed::Box<u32>", 1, True)],
             "::std::boxed::Box::new({i}u32 + 200)", "**m = 777;", "::std::boxed::Box::new(777u32)"),
@@ -320,6 +323,9 @@ def rich_case(seed, k):
         a = ""
         if marks:
             a = "#[educe(%s)] " % ", ".join(marks) if rng.random() < 0.6 else "".join("#[educe(%s)] " % m for m in marks)
+        if vis:
+            # (how visible a field is has nothing to do with which field is designated)
+            vis = f.setdefault("vis", rng.choice(["pub ", "pub ", "", "pub(crate) ", "pub(self) "]))
         return "%s%s%s%s" % (a, vis, (f["name"] + ": ") if f["name"] else "", f["ty"])
     traits = ["Deref"] + (["DerefMut"] if mut else [])
     rng.shuffle(traits)
